@@ -27,6 +27,8 @@ G = {
     "CRZ(b)10": lambda p: qp.CRZ(p[1], [1, 0]), "CRY(g)01": lambda p: qp.CRY(p[2], [0, 1]), "IsingXX(a)01": lambda p: qp.IsingXX(p[0], [0, 1]), "IsingXX(b)01": lambda p: qp.IsingXX(p[1], [0, 1]),
     "IsingZZ(a)01": lambda p: qp.IsingZZ(p[0], [0, 1]), "GP(g)": lambda p: qp.GlobalPhase(p[2], wires=0), "GP(a)": lambda p: qp.GlobalPhase(p[0], wires=1), "Barrier": lambda p: qp.Barrier([0, 1]),
     "CPS(a)01": lambda p: qp.ControlledPhaseShift(p[0], [0, 1]), "CPS(b)01": lambda p: qp.ControlledPhaseShift(p[1], [0, 1]), "RX(a)2": lambda p: qp.RX(p[0], 2), "X2": lambda p: qp.PauliX(2),
+    "CZ02": lambda p: qp.CZ([0, 2]), "CNOT02": lambda p: qp.CNOT([0, 2]), "CNOT21": lambda p: qp.CNOT([2, 1]), "RX(a)1": lambda p: qp.RX(p[0], 1), "RX(b)1": lambda p: qp.RX(p[1], 1),
+    "Z1": lambda p: qp.PauliZ(1), "CRZ(b)02": lambda p: qp.CRZ(p[1], [0, 2]), "CRX(b)21": lambda p: qp.CRX(p[1], [2, 1]), "RY(g)0": lambda p: qp.RY(p[2], 0),
     "MultiRZ(a)01": lambda p: qp.MultiRZ(p[0], [0, 1]), "ISWAP01": lambda p: qp.ISWAP([0, 1]), "adj(RX(a))0": lambda p: qp.adjoint(qp.RX(p[0], 0)), "U1(a)0": lambda p: qp.U1(p[0], 0), "U1(b)0": lambda p: qp.U1(p[1], 0),
 }
 
@@ -51,6 +53,36 @@ PASSES = {
 EXCLUDE = {  # gates a pass documents it cannot handle / that are irrelevant
     "commute_controlled(right)": {"Barrier"}, "commute_controlled(left)": {"Barrier"},
 }
+
+
+def commute_chains(tier):
+    """a single-qubit gate that must travel through SEVERAL controlled gates it commutes with, with and without a non-commuting
+    blocker in between (left: mover last, right: mover first).  Run with the commute_controlled passes and compile only."""
+    if tier == "quick":
+        ctl = (["Z0", "RZ(a)0"], ["CNOT01", "CZ02", "CNOT02"], ["H0", "RY(g)0"])
+        tgt = (["X1", "RX(a)1"], ["CNOT01", "CNOT21"], ["H1", "RZ(b)1"])
+    else:
+        ctl = (["Z0", "RZ(a)0", "S0", "PS(a)0"], ["CNOT01", "CZ02", "CNOT02", "CZ01", "CRZ(b)02", "CRX(b)01"], ["H0", "RY(g)0", "X0", "SX0"])
+        tgt = (["X1", "RX(a)1", "SX0"], ["CNOT01", "CNOT21", "CRX(b)21", "CRX(b)01"], ["H1", "RZ(b)1", "Z1", "T1"])
+    out = []
+    # unrelated gates before (left) / after (right) the chain shift every list index the pass computes
+    pads = {id(ctl): ([], ["RY(g)1"], ["RY(g)1", "RX(b)0"]), id(tgt): ([], ["RY(g)0"], ["RY(g)0", "RX(b)1"])}
+    for grp in (ctl, tgt):
+        movers, gates, blockers = grp
+        for m, A, B in itertools.product(movers, gates, gates):
+            for pad in pads[id(grp)]:
+                out += [pad + [A, B, m], [m, A, B] + pad[::-1]]
+                for blk in blockers:
+                    out += [pad + [A, blk, B, m], [m, A, blk, B] + pad[::-1]]
+    if tier != "quick":
+        for movers, gates, blockers in (ctl, tgt):
+            for m, A, B, C in itertools.product(movers[:2], gates[:3], gates[:3], gates[:3]):
+                for blk in blockers[:2]:
+                    out += [[A, blk, B, C, m], [A, B, blk, C, m], [m, A, blk, B, C], [m, A, B, blk, C]]
+    return out
+
+
+CHAIN_PASSES = ["commute_controlled(right)", "commute_controlled(left)", "compile(commute,cancel,merge x2)"]
 
 
 def family(tier, seed=0):
@@ -273,6 +305,12 @@ def items_for(ctx):
             if si < nh or pn.index(it[1]) % 4 == si % 4:
                 keep.append(it)
         items = keep
+    seen = {(tuple(s), pn) for s, pn in items}
+    for s in commute_chains(ctx.tier):
+        for pname in CHAIN_PASSES:
+            if (tuple(s), pname) not in seen:
+                seen.add((tuple(s), pname))
+                items.append((s, pname))
     if ctx.only:
         items = [it for it in items if ctx.only in f"{it[1]} on {'.'.join(it[0])}"]
     return items
